@@ -1,7 +1,8 @@
 CONSTANTS MaxRetx = 2
   MaxPeerMsgs = 4
   IgnoreAfterDone = TRUE
+  OnceClose = TRUE
 INIT Init
 NEXT Next
-INVARIANTS Bounded FailClosed OkOnlyAfterOk StableAfterOK NotStuck Dispatchable
+INVARIANTS NoCrash Bounded FailClosed OkOnlyAfterOk StableAfterOK NotStuck Dispatchable
 CHECK_DEADLOCK FALSE
